@@ -66,6 +66,37 @@ type Op struct {
 	S      int    `json:"s,omitempty"`      // bit mask of per-call Session options (sessOptNames)
 }
 
+// Carried describes a reusable handle all goroutines share that already carries clauses of its own:
+// db.Where(..)x Wheres .Order(..)x Orders [.Joins][.Preload][.Select("*")].Session(&gorm.Session{}).
+// The "carried" operations derive a chain from it, add one more clause of a kind it already has
+// (Order, Where, Select, Omit, Joins, Preload, Limit, Clauses) and finish it; what they add must
+// never show in another goroutine's chain. The carried conditions are true for every row and the
+// carried orderings are constant expressions, so results are decided by what the goroutine adds.
+type Carried struct {
+	M       int  `json:"m"`                 // Gadget, Widget, or Author (only when family 1 is completely parsed)
+	Orders  int  `json:"orders"`            // 0..7 Order() calls (slices with spare capacity: 3, 5, 6, 7)
+	Wheres  int  `json:"wheres"`            // 0..3 Where() calls
+	Select  bool `json:"select,omitempty"`  // Select("<table>.*")
+	Joins   bool `json:"joins,omitempty"`   // Author: Joins("Company")
+	Preload bool `json:"preload,omitempty"` // Author: Preload("Profile")
+}
+
+func (k *Carried) String() string {
+	s := fmt.Sprintf("%s where x%d order x%d", modelNames[k.M], k.Wheres, k.Orders)
+	if k.Select {
+		s += " select"
+	}
+	if k.Joins {
+		s += " joins"
+	}
+	if k.Preload {
+		s += " preload"
+	}
+	return s
+}
+
+var carriedUses = []string{"order", "order2", "where", "select", "omit", "limit", "clauses", "joins", "preload", "not"}
+
 // per-call session options: the operation runs on db.Session(&gorm.Session{...}) derived for the call
 var sessOptNames = []string{"SkipHooks", "QueryFields", "FullSaveAssociations", "NewDB", "Context", "SkipDefaultTransaction", "DryRun", "CreateBatchSize", "Debug"}
 
@@ -124,6 +155,7 @@ type Case struct {
 	Procs    int      `json:"procs"`              // GOMAXPROCS during the concurrent run (0 = unchanged)
 	MaxOpen  int      `json:"max_open"`           // SetMaxOpenConns of the pool (0 = unbounded)
 	Cfg      []string `json:"cfg,omitempty"`      // gorm.Config switches / dialector / logger / plugin (cfgNames)
+	Carry    *Carried `json:"carry,omitempty"`    // a second shared handle, derived before the barrier, that already carries clauses (see Carried)
 	Root     string   `json:"root,omitempty"`     // the shared handle: "" = the handle gorm.Open returned, or one derived from it before the barrier (rootNames)
 	Programs [][]Op   `json:"programs"`
 }
@@ -144,6 +176,9 @@ func (c *Case) String() string {
 	}
 	if c.Root != "" {
 		b.WriteString(" shared-handle=" + c.Root)
+	}
+	if c.Carry != nil {
+		b.WriteString(" carrying-handle={" + c.Carry.String() + "}")
 	}
 	for g, p := range c.Programs {
 		parts := make([]string, len(p))
@@ -298,7 +333,10 @@ var (
 )
 
 // palette: which model families a goroutine may use (the relation-free models always).
-type palette struct{ f1, f2 bool }
+type palette struct {
+	f1, f2 bool
+	carry  *Carried // non-nil: "carried" operations may be generated (if the goroutine may use the model)
+}
 
 func (p palette) models() []int {
 	ms := append([]int(nil), freeModels...)
@@ -336,6 +374,10 @@ func genOp(t *rapid.T, pal palette, depth int) Op {
 	}
 	if depth == 0 {
 		kinds = append(kinds, "conn") // db.Connection on a tx handle would ask the pool for a second connection
+		// the carrying handle belongs to the pool, not to a block's connection: top level only
+		if k := pal.carry; k != nil && (family(k.M) == 0 || pal.f1) {
+			kinds = append(kinds, "carried", "carried", "carried", "carried")
+		}
 	}
 	o := Op{K: rapid.SampledFrom(kinds).Draw(t, "kind")}
 	o.Y = rapid.IntRange(0, 3).Draw(t, "yield") == 0
@@ -369,6 +411,9 @@ func fillOp(t *rapid.T, o *Op, pal palette) {
 		o.M = rapid.SampledFrom(pal.models()).Draw(t, "model")
 		o.B = rapid.IntRange(0, len(spellUses)-1).Draw(t, "use")
 		o.V = rapid.IntRange(0, 99).Draw(t, "columnAndSpelling")
+	case "carried":
+		o.M = pal.carry.M
+		o.B = rapid.IntRange(0, len(carriedUses)-1).Draw(t, "use")
 	case "lite":
 		o.M = mGadget
 	case "unscoped":
@@ -478,6 +523,20 @@ func genCase(t *rapid.T) *Case {
 	if rapid.IntRange(0, 2).Draw(t, "derivedRoot") == 0 {
 		c.Root = rapid.SampledFrom(rootNames).Draw(t, "root")
 	}
+	if rapid.IntRange(0, 2).Draw(t, "carrying") != 0 {
+		k := &Carried{M: rapid.SampledFrom([]int{mGadget, mGadget, mWidget, mAuthor}).Draw(t, "carryModel")}
+		if k.M == mAuthor && !c.familySafe(1) {
+			k.M = mGadget
+		}
+		k.Orders = rapid.SampledFrom([]int{0, 1, 2, 3, 3, 4, 5, 5, 6, 7}).Draw(t, "carryOrders")
+		k.Wheres = rapid.IntRange(0, 3).Draw(t, "carryWheres")
+		k.Select = rapid.IntRange(0, 3).Draw(t, "carrySelect") == 0
+		if k.M == mAuthor {
+			k.Joins = rapid.Bool().Draw(t, "carryJoins")
+			k.Preload = rapid.Bool().Draw(t, "carryPreload")
+		}
+		c.Carry = k
+	}
 	if (c.Prepare || c.Sess != "") && c.MaxOpen > 0 && harness.OpenClass("C07", classBoundedPool) {
 		// listed finding: PrepareStmt on a bounded pool can deadlock (a transaction that holds the last
 		// connection waits for a preparation that waits for a connection); keep the pool unbounded
@@ -513,7 +572,7 @@ func genCase(t *rapid.T) *Case {
 	}
 	c.Programs = make([][]Op, c.G)
 	for g := range c.Programs {
-		pal := palette{f1: only[1] == -2 || only[1] == g, f2: only[2] == -2 || only[2] == g}
+		pal := palette{f1: only[1] == -2 || only[1] == g, f2: only[2] == -2 || only[2] == g, carry: c.Carry}
 		n := rapid.IntRange(1, maxOps).Draw(t, "len")
 		var first []Op
 		switch {
@@ -538,6 +597,12 @@ func genCase(t *rapid.T) *Case {
 // ---- executing one operation ----------------------------------------------------------------------
 
 var errRollback = errors.New("c07: roll back")
+
+// carrying is the clause-carrying shared handle of the case that runs (set before its goroutines start).
+var carrying struct {
+	h       *gorm.DB
+	prepare bool // the case enables prepared statements per derived Session
+}
 
 // progress counts finished operations (of the one case that runs at a time); the deadlock watchdog reads it.
 var progress int64
@@ -924,6 +989,47 @@ func exec(db *gorm.DB, g int, o Op) string {
 	case "delrange":
 		r := inRange(db, o.M, g).Where(modelTables[o.M]+".id >= ?", keyOf(g, o.A)).Delete(newModel(o.M))
 		return fmt.Sprintf("%s ra=%d", errText(r.Error), r.RowsAffected)
+	case "carried":
+		h := carrying.h
+		if carrying.prepare {
+			h = h.Session(&gorm.Session{PrepareStmt: true})
+		}
+		tb := modelTables[o.M]
+		col := tb + "." + firstColumn(o.M)
+		idOrder := tb + ".id"
+		if o.V%2 == 1 {
+			idOrder += " desc"
+		}
+		q := inRange(h, o.M, g)
+		use := carriedUses[o.B]
+		if (use == "joins" || use == "preload") && o.M != mAuthor {
+			use = "order"
+		}
+		switch use {
+		case "order":
+			q = q.Order(idOrder)
+		case "order2":
+			q = q.Order(col + " desc").Order(idOrder)
+		case "where":
+			q = q.Where(col+" <> ?", changes(o.M, o.V)[firstColumn(o.M)]).Where(tb+".id <> ?", keyOf(g, o.A)).Order(idOrder)
+		case "select":
+			q = q.Select(tb+".id", col).Order(idOrder)
+		case "omit":
+			q = q.Omit(firstColumn(o.M)).Order(idOrder)
+		case "limit":
+			q = q.Order(idOrder).Limit(2 + o.V%3).Offset(o.V % 2)
+		case "clauses":
+			q = q.Clauses(clause.OrderBy{Columns: []clause.OrderByColumn{{Column: clause.Column{Table: tb, Name: "id"}, Desc: o.V%2 == 1}}})
+		case "joins":
+			q = q.Joins("Profile").Order(idOrder)
+		case "preload":
+			q = q.Preload("Tags").Order(idOrder)
+		case "not":
+			q = q.Not(tb+".id = ?", keyOf(g, o.A)).Or(tb+".id = ?", keyOf(g, 1+o.A%nKeys)).Order(idOrder)
+		}
+		out := newSlice(o.M)
+		r := q.Find(out)
+		return fmt.Sprintf("%s ra=%d %s via carried+%s", errText(r.Error), r.RowsAffected, render(out), use)
 	case "conn":
 		var inner []string
 		err := db.Connection(func(tx *gorm.DB) error {
@@ -1328,6 +1434,27 @@ func openCase(c *Case) *caseDB {
 		d.shared = db.Session(&gorm.Session{NewDB: true, SkipHooks: false})
 	case "cond":
 		d.shared = db.Where("1 = 1").Session(&gorm.Session{})
+	}
+	carrying.h, carrying.prepare = nil, c.Sess != ""
+	if k := c.Carry; k != nil {
+		tb := modelTables[k.M]
+		h := d.shared
+		for i := 0; i < k.Wheres; i++ {
+			h = h.Where(tb+".id > ?", i) // true for every row
+		}
+		for i := 0; i < k.Orders; i++ {
+			h = h.Order(fmt.Sprintf("%s.id * 0 + %d", tb, i)) // constant: decides nothing
+		}
+		if k.Joins {
+			h = h.Joins("Company")
+		}
+		if k.Preload {
+			h = h.Preload("Profile")
+		}
+		if k.Select {
+			h = h.Select(tb + ".*")
+		}
+		carrying.h = h.Session(&gorm.Session{})
 	}
 	return d
 }
@@ -1794,6 +1921,18 @@ func runCase(rt *rapid.T) {
 	for _, n := range c.Cfg {
 		cl = append(cl, "cfg:"+n)
 	}
+	if k := c.Carry; k != nil {
+		cl = append(cl, fmt.Sprintf("carrying-handle:orders=%d", k.Orders), fmt.Sprintf("carrying-handle:wheres=%d", k.Wheres), "carrying-handle:"+modelNames[k.M])
+		if k.Select {
+			cl = append(cl, "carrying-handle:select")
+		}
+		if k.Joins {
+			cl = append(cl, "carrying-handle:joins")
+		}
+		if k.Preload {
+			cl = append(cl, "carrying-handle:preload")
+		}
+	}
 	if c.Root != "" {
 		cl = append(cl, "shared-handle:"+c.Root)
 	} else {
@@ -1846,7 +1985,7 @@ func runCase(rt *rapid.T) {
 }
 
 func TestC07(t *testing.T) {
-	evid.Rule("C07: G in 2..32 goroutines (four size buckets) released by one barrier, each running 1-8 operations through ONE shared *gorm.DB (the opened handle, or one derived from it before the barrier: Session{}, WithContext, Session{NewDB}, a conditioned handle) on explicit keys private to the goroutine. Operations: Create (single, []T, []*T 2-6 rows, nested associations, maps, []map, CreateInBatches, OnConflict), Save, FirstOrInit/FirstOrCreate with struct Attrs / map Assign, Find (chain and inline conditions, struct conditions of the model's and of a foreign type, smaller destination struct, Scopes, Not/Or groups, Distinct/Limit/Offset, Group/Having into maps, sub-query built from the shared handle), First/Take/Last, FindInBatches, Count, Pluck, Row, Rows+ScanRows, Raw.Scan, Exec, ToSQL, Preload incl. nested, relation Joins, Update/Updates (map, struct)/UpdateColumn(s), clause.Returning on update and delete, Delete (key, range, Unscoped, Select(clause.Associations)), Set/Get/InstanceSet/InstanceGet, Migrator HasTable/HasColumn (also through Table()), Transaction blocks (nested, rollback), manual Begin/SavePoint/RollbackTo/Commit, Connection blocks, Association Append/Replace/Delete/Clear/Find/Count, statements that cannot be prepared (Raw/Table/Exec on a missing table, a missing column; three texts each, shared by all goroutines), column names in five spellings for Select/Omit/Updates(map)/Where(map)/Pluck; a quarter of the plain operations run on a per-call Session with SkipHooks/QueryFields/FullSaveAssociations/NewDB/Context/SkipDefaultTransaction/DryRun/CreateBatchSize/Debug. Models: a cyclic family of six related types (belongs-to, has-one, has-many, many-to-many), a second family (one target type with four has-many/has-one owner types), two relation-free types with a json serializer field, a Valuer/Scanner type, an embedded struct, tracked times, soft delete and hook methods. In a third of the cases all goroutines start with the same statement text (failing or good). Schema cache cold / one type parsed / only the shared target type parsed and queried (owners first used concurrently) / all parsed / all queried before the barrier; PrepareStmt off / Config.PrepareStmt / db.Session(&gorm.Session{PrepareStmt: true}) derived per call or once per goroutine; Config switches QueryFields, CreateBatchSize, FullSaveAssociations, TranslateError, PropagateUnscoped, an Info-level Logger, a NameReplacer naming strategy, a dialector without RETURNING, a Plugin registering callbacks (with Match) in every processor; default transactions on/off; pool unbounded or 1/2/4; GOMAXPROCS 1/2/4/default; generated Gosched points. Judged by the race detector (report count read after every case), by equality of every result (error texts, recovered panics included) and of all final rows with a serial run on a fresh database, and by a deadlock watchdog. Non-trivial = part of the schema cache is cold at the barrier (G >= 2 always), or warm cache with >= 4 goroutines and >= 1 association/preload/joins/nested-create operation; distinct = configuration + programs")
+	evid.Rule("C07: G in 2..32 goroutines (four size buckets) released by one barrier, each running 1-8 operations through ONE shared *gorm.DB (the opened handle, or one derived from it before the barrier: Session{}, WithContext, Session{NewDB}, a conditioned handle; in two thirds of the cases also a second shared Session handle that already carries 0-3 Where conditions, 0-7 Order columns and possibly Select/Joins/Preload, from which goroutines derive chains that add one more Order/Where/Select/Omit/Limit/Clauses/Joins/Preload/Not-Or before finishing) on explicit keys private to the goroutine. Operations: Create (single, []T, []*T 2-6 rows, nested associations, maps, []map, CreateInBatches, OnConflict), Save, FirstOrInit/FirstOrCreate with struct Attrs / map Assign, Find (chain and inline conditions, struct conditions of the model's and of a foreign type, smaller destination struct, Scopes, Not/Or groups, Distinct/Limit/Offset, Group/Having into maps, sub-query built from the shared handle), First/Take/Last, FindInBatches, Count, Pluck, Row, Rows+ScanRows, Raw.Scan, Exec, ToSQL, Preload incl. nested, relation Joins, Update/Updates (map, struct)/UpdateColumn(s), clause.Returning on update and delete, Delete (key, range, Unscoped, Select(clause.Associations)), Set/Get/InstanceSet/InstanceGet, Migrator HasTable/HasColumn (also through Table()), Transaction blocks (nested, rollback), manual Begin/SavePoint/RollbackTo/Commit, Connection blocks, Association Append/Replace/Delete/Clear/Find/Count, statements that cannot be prepared (Raw/Table/Exec on a missing table, a missing column; three texts each, shared by all goroutines), column names in five spellings for Select/Omit/Updates(map)/Where(map)/Pluck; a quarter of the plain operations run on a per-call Session with SkipHooks/QueryFields/FullSaveAssociations/NewDB/Context/SkipDefaultTransaction/DryRun/CreateBatchSize/Debug. Models: a cyclic family of six related types (belongs-to, has-one, has-many, many-to-many), a second family (one target type with four has-many/has-one owner types), two relation-free types with a json serializer field, a Valuer/Scanner type, an embedded struct, tracked times, soft delete and hook methods. In a third of the cases all goroutines start with the same statement text (failing or good). Schema cache cold / one type parsed / only the shared target type parsed and queried (owners first used concurrently) / all parsed / all queried before the barrier; PrepareStmt off / Config.PrepareStmt / db.Session(&gorm.Session{PrepareStmt: true}) derived per call or once per goroutine; Config switches QueryFields, CreateBatchSize, FullSaveAssociations, TranslateError, PropagateUnscoped, an Info-level Logger, a NameReplacer naming strategy, a dialector without RETURNING, a Plugin registering callbacks (with Match) in every processor; default transactions on/off; pool unbounded or 1/2/4; GOMAXPROCS 1/2/4/default; generated Gosched points. Judged by the race detector (report count read after every case), by equality of every result (error texts, recovered panics included) and of all final rows with a serial run on a fresh database, and by a deadlock watchdog. Non-trivial = part of the schema cache is cold at the barrier (G >= 2 always), or warm cache with >= 4 goroutines and >= 1 association/preload/joins/nested-create operation; distinct = configuration + programs")
 	evid.Assume("SQLite's single-writer rule is hidden by the harness: connections run read_uncommitted and writers queue on one harness mutex (BEGIN..COMMIT or one autocommit write); write paths of two goroutines therefore overlap only outside transactions (SkipDefaultTransaction cases)")
 	evid.Assume("the runtime's schedule is sampled, not enumerated; the race detector reports unsynchronised conflicting accesses it observes within its history window")
 	if !raceEnabled {
